@@ -21,6 +21,10 @@ pub mod c25;
 pub mod c28;
 pub mod c29;
 pub mod exh;
+pub mod c17;
+pub mod c18;
+pub mod c19;
+pub mod c20;
 
 pub fn all() -> Vec<Prop> {
     vec![
@@ -43,6 +47,10 @@ pub fn all() -> Vec<Prop> {
         c25::prop(),
         c28::prop(),
         c29::prop(),
+        c17::prop(),
+        c18::prop(),
+        c19::prop(),
+        c20::prop(),
     ]
 }
 
@@ -50,6 +58,7 @@ pub fn all() -> Vec<Prop> {
 pub fn aux(id: &str, args: &[String]) -> i32 {
     match id {
         "C14" => c14::aux(args),
+        "C17" => c17::aux(args),
         _ => {
             eprintln!("no aux entry for {}", id);
             4
